@@ -42,6 +42,11 @@ fn main() {
     writeln!(code, "#[async_trait::async_trait]\nimpl s3s::S3 for Recorder {{").unwrap();
     for (m, i, o) in methods(&s3, "S3Request<") {
         writeln!(code, "    async fn {m}(&self, req: s3s::S3Request<s3s::dto::{i}>) -> s3s::S3Result<s3s::S3Response<s3s::dto::{o}>> {{").unwrap();
+        if i == "PutObjectInput" || i == "UploadPartInput" {
+            writeln!(code, "        let mut req = req;").unwrap();
+            writeln!(code, "        let drained = crate::drain(req.input.body.take()).await;").unwrap();
+            writeln!(code, "        self.log.lock().unwrap().push(serde_json::json!({{\"ev\": \"body.{m}\", \"body\": drained, \"content_length\": req.input.content_length}}));").unwrap();
+        }
         writeln!(code, "        self.backend(\"{m}\", &req, |out: &serde_json::Value| crate::outputs::{m}(out))").unwrap();
         writeln!(code, "    }}").unwrap();
     }
